@@ -259,8 +259,8 @@ def guarded_validate(data, timeout=5.0, want_pictures=False):
     def on_alarm(signum, frame):
         raise VerifTimeout()
 
-    old = signal.signal(signal.SIGALRM, on_alarm)
-    signal.setitimer(signal.ITIMER_REAL, timeout)
+    old = signal.signal(signal.SIGPROF, on_alarm)
+    signal.setitimer(signal.ITIMER_PROF, timeout)
     try:
         return run_validator(data, want_pictures)
     except OutOfScope as e:
@@ -268,8 +268,8 @@ def guarded_validate(data, timeout=5.0, want_pictures=False):
     except VerifTimeout:
         return {"outcome": "timeout", "exc": None, "sig": None, "pics": [], "error": None}
     finally:
-        signal.setitimer(signal.ITIMER_REAL, 0)
-        signal.signal(signal.SIGALRM, old)
+        signal.setitimer(signal.ITIMER_PROF, 0)
+        signal.signal(signal.SIGPROF, old)
 
 
 def mutant_jobs(ctx, per_base_quick, per_base_thorough):
@@ -331,8 +331,8 @@ def with_timeout(fn, timeout=5.0):
     def on_alarm(signum, frame):
         raise VerifTimeout()
 
-    old = signal.signal(signal.SIGALRM, on_alarm)
-    signal.setitimer(signal.ITIMER_REAL, timeout)
+    old = signal.signal(signal.SIGPROF, on_alarm)
+    signal.setitimer(signal.ITIMER_PROF, timeout)
     try:
         return "ok", fn()
     except OutOfScope as e:
@@ -340,8 +340,8 @@ def with_timeout(fn, timeout=5.0):
     except VerifTimeout:
         return "timeout", None
     finally:
-        signal.setitimer(signal.ITIMER_REAL, 0)
-        signal.signal(signal.SIGALRM, old)
+        signal.setitimer(signal.ITIMER_PROF, 0)
+        signal.signal(signal.SIGPROF, old)
 
 
 # ---------------------------------------------------------------------------------- trace recorder
